@@ -147,11 +147,11 @@ Lemma znum_eq a b : a = b -> znum a = znum b.
 Proof. congruence. Qed.
 
 Lemma lua_add_z a b st : lua_add (znum a) (znum b) st = (Ok (znum (a + b)), st).
-Proof. unfold lua_add, num2, znum, lift, Qplus, inject_Z; cbn. rewrite !Z.mul_1_r. reflexivity. Qed.
+Proof. unfold lua_add, arith2, as_num, znum, lift, Qplus, inject_Z; cbn. rewrite !Z.mul_1_r. reflexivity. Qed.
 
 Lemma lua_sub_z a b st : lua_sub (znum a) (znum b) st = (Ok (znum (a - b)), st).
 Proof.
-  unfold lua_sub, num2, znum, lift, Qminus, Qplus, Qopp, inject_Z; cbn. rewrite !Z.mul_1_r.
+  unfold lua_sub, arith2, as_num, znum, lift, Qminus, Qplus, Qopp, inject_Z; cbn. rewrite !Z.mul_1_r.
   reflexivity.
 Qed.
 
@@ -166,7 +166,7 @@ Proof. unfold lua_ge, num2, znum, lift. now rewrite Qle_bool_inject. Qed.
 
 Lemma lua_max_z a b st : lua_max (znum a) (znum b) st = (Ok (znum (Z.max a b)), st).
 Proof.
-  unfold lua_max, num2, znum, lift. rewrite qlt_inject.
+  unfold lua_max, arith2, as_num, znum, lift. rewrite qlt_inject.
   destruct (a <? b) eqn:E.
   - apply Z.ltb_lt in E. replace (Z.max a b) with b by lia. reflexivity.
   - apply Z.ltb_ge in E. replace (Z.max a b) with a by lia. reflexivity.
@@ -174,7 +174,7 @@ Qed.
 
 Lemma lua_min_z a b st : lua_min (znum a) (znum b) st = (Ok (znum (Z.min a b)), st).
 Proof.
-  unfold lua_min, num2, znum, lift. rewrite qlt_inject.
+  unfold lua_min, arith2, as_num, znum, lift. rewrite qlt_inject.
   destruct (b <? a) eqn:E.
   - apply Z.ltb_lt in E. replace (Z.min a b) with b by lia. reflexivity.
   - apply Z.ltb_ge in E. replace (Z.min a b) with a by lia. reflexivity.
@@ -189,7 +189,7 @@ Lemma lua_div_mul2_floor a b st : 0 < b ->
   = (Ok (znum (a * 2 / b)), st).
 Proof.
   intro Hb. destruct b as [|p|p]; try lia.
-  unfold bind, lua_div, lua_mul, lua_floor, num2, znum, lift, ret.
+  unfold bind, lua_div, lua_mul, lua_floor, arith2, as_num, znum, lift, ret.
   unfold Qeq_bool, inject_Z; cbn.
   unfold Qfloor, Qdiv, Qmult, Qinv, inject_Z; cbn.
   rewrite Z.mul_1_r, Pos.mul_1_r. reflexivity.
@@ -211,7 +211,7 @@ Proof. cbn [exec]. destruct (lookup st k); [destruct (p <=? 0)|]; cbn; eauto. Qe
 Lemma lua_div_z a b st : 0 < b ->
   lua_div (znum a) (znum b) st = (Ok (LNum (inject_Z a / inject_Z b)), st).
 Proof.
-  intro Hb. unfold lua_div, num2, znum, lift. change 0%Q with (inject_Z 0). rewrite Qeq_bool_inject.
+  intro Hb. unfold lua_div, arith2, as_num, znum, lift. change 0%Q with (inject_Z 0). rewrite Qeq_bool_inject.
   destruct (b =? 0) eqn:E; [apply Z.eqb_eq in E; lia | reflexivity].
 Qed.
 
@@ -255,7 +255,7 @@ Lemma lua_floor_M q : lua_floor (LNum q) = ret (znum (Qfloor q)).
 Proof. reflexivity. Qed.
 Lemma lua_div_M a b : 0 < b -> lua_div (znum a) (znum b) = ret (LNum (inject_Z a / inject_Z b)).
 Proof.
-  intro Hb. unfold lua_div, num2, znum. change 0%Q with (inject_Z 0). rewrite Qeq_bool_inject.
+  intro Hb. unfold lua_div, arith2, as_num, znum. change 0%Q with (inject_Z 0). rewrite Qeq_bool_inject.
   destruct (b =? 0) eqn:E; [apply Z.eqb_eq in E; lia | reflexivity].
 Qed.
 Lemma lua_lt_M a b : lua_lt (znum a) (znum b) = ret (LBool (a <? b)).
